@@ -4,31 +4,45 @@ namespace Restli.CleanDir
 open Restli
 
 partial def nodeOfSexp : Sexp → Option Node
-  | .list [.atom "f", .atom n, .atom c] => c.toNat?.map (Node.file n)
+  | .list [.atom "f", .atom n, .atom c] => c.toNat?.map (fun k => Node.file n (.data k))
+  | .list [.atom "l", .atom n, .atom dest] => some (Node.file n (.link dest))
   | .list (.atom "d" :: .atom n :: cs) => do
     let cs' ← cs.mapM nodeOfSexp
     pure (Node.dir n cs')
   | _ => none
 
 partial def sexpOfNode : Node → Sexp
-  | .file n c => .list [.atom "f", .atom n, .atom (toString c)]
+  | .file n (.data c) => .list [.atom "f", .atom n, .atom (toString c)]
+  | .file n (.link dest) => .list [.atom "l", .atom n, .atom dest]
   | .dir n cs => .list (.atom "d" :: .atom n :: cs.map sexpOfNode)
 
-/-- `clean <v2|root> <dot:0|1> <tree|->` -/
+def treeOfSexp : Sexp → Option (Option Node)
+  | .atom "-" => some none
+  | s => (nodeOfSexp s).map some
+
+def renderTree : Option Node → String
+  | none => "-"
+  | some n => (sexpOfNode n).render
+
+/-- `clean <v2|root> <dot:0|1> <tree|-> [<outside|->]`; trees are `(f name content)`,
+`(l name destination)`, `(d name child…)`. Answer: `ok|err <tree|->`, followed by the sibling
+directory as the model leaves it when one was given. -/
 def opClean (args : List Sexp) : String :=
   match args with
   | [.atom gen, .atom dot, t] =>
     let O := if gen == "root" then ownRoot else ownV2
-    let dotB := dot == "1"
-    let tree : Option (Option Node) := match t with
-      | .atom "-" => some none
-      | s => (nodeOfSexp s).map some
-    match tree with
+    match treeOfSexp t with
     | none => "bad-op"
     | some tr =>
-      let r := clean O dotB tr
-      (if r.err then "err " else "ok ") ++
-        (match r.node with | none => "-" | some n => (sexpOfNode n).render)
+      let r := clean O (dot == "1") tr
+      (if r.err then "err " else "ok ") ++ renderTree r.node
+  | [.atom gen, .atom dot, t, o] =>
+    let O := if gen == "root" then ownRoot else ownV2
+    match treeOfSexp t, treeOfSexp o with
+    | some tr, some out =>
+      let w := cleanWorld O (dot == "1") ⟨tr, out⟩
+      (if w.res.err then "err " else "ok ") ++ renderTree w.res.node ++ " " ++ renderTree w.outside
+    | _, _ => "bad-op"
   | _ => "bad-op"
 
 end Restli.CleanDir
